@@ -186,6 +186,7 @@ struct Viol {
     uint32_t count;
     Work w;        // schedule
     int npoints;   // points executed when it failed
+    int nracy;     // number of racy PCs active when it was found
     char log[6000];
 };
 
@@ -210,6 +211,9 @@ struct Shm {
     volatile int dev_overflow;
     volatile int pts_overflow;
     volatile int harness_error;
+    volatile int viol_execs;      // violating executions in this scenario
+    int max_viol_execs;
+    volatile int stopped_after_violations;
     char harness_error_msg[1024];
     // params
     int bound;
